@@ -145,3 +145,8 @@ def run(ctx):
     ctx.coverage["distinct_nontrivial"] = st["rejected"] + st2["legal"] + st3["clean"]
     ctx.coverage["rule"] = "random valid charts with 0-2 structural corruptions (dangling/empty targets, initial outside/unknown, history without/with two/conditional/eventful/outside default, non-orthogonal multi-targets, duplicate and missing ids, bad <initial> elements); accepted ones are interpreted and every configuration checked by Spec.Legal; valid charts under null and lua datamodels must be clean; random element soup for crash-freedom"
     ctx.assumptions += ["content-model / attribute warnings are outside the model", "transpiling accepted documents is exercised by C04-C06/C18"]
+
+
+def replay(ctx, path):
+    import uvlib
+    return uvlib.generic_replay(ctx, path, [("v\t", "validate", "validate", None), (None, "trace", "trace", None)])
